@@ -26,6 +26,7 @@ CONSTANTS
   Dts = {1, 2, 3}
   Thresholds = {1, 2}
   Kinds = {"valid", "bad", "none"}
+  WithPrep = FALSE
   MaxHeight = 12
   MaxCtx = 3
   MaxBatch = 4
